@@ -164,6 +164,13 @@ def classify(a, b, program=""):
         for idx, (clock, n) in pending_at_death(out).items():
             if n >= 2 and clock in clocks:
                 return "activities-cancel-order"
+    # `parallel-cleanup-cancel-order` (C02): >= 2 actors died at the date of the divergence, each holding an unfinished
+    # asynchronous activity: cleanup_from_self cancels them in the dying actors' own contexts, so with worker threads
+    # the order between the actors is decided by the threads
+    for out in (a, b):
+        dying = [clock for idx, (clock, n) in pending_at_death(out).items() if n >= 1 and clock in clocks]
+        if len(dying) >= 2:
+            return "parallel-cleanup-cancel-order"
     return None
 
 
